@@ -366,6 +366,10 @@ class WindowedOptimizer:
                     qs = queue_scorer(next_subnodes, queue_temperature)
                     heapq.heappush(queue, (qs, q))
                     cands[q] = (next_subtree, next_subnodes)
+                elif len(next_subnodes) != cf - ci:
+                    # ran out of candidates (which always share an edge)
+                    # before the window was complete -> dead end
+                    tries += 1
                 else:
                     # finished the local contraction with good score, check it
                     for c, node in enumerate(next_subnodes[1:], ci + 1):
